@@ -910,7 +910,10 @@ func (l *ledger) checkInfo(n *simNode) {
 	if cur.snapIdx > r.lastLogIndex {
 		l.violate("info", "snapshot-beyond-log", fmt.Sprintf("node %d: snapshot index %d > last log index %d", n.id, cur.snapIdx, r.lastLogIndex))
 	}
-	if r.configs.IsCommitted() && r.configs.Committed.Index > r.commitIndex && r.configs.Committed.Index > 1 {
+	// not when that configuration is known to be committed (some node's commit index has reached it and this node
+	// holds the same entry): a follower that falls back to the predecessor of an overwritten configuration entry may not
+	// have learnt the commit index yet, but a leader appends a configuration only after its predecessor is committed
+	if r.configs.IsCommitted() && r.configs.Committed.Index > r.commitIndex && r.configs.Committed.Index > 1 && !l.knownCommitted(n, r.configs.Committed.Index) {
 		l.violate("removed", "config-treated-as-committed-before-commit", fmt.Sprintf("node %d treats configuration %d {%s} as committed (and acts on it: step-down / shutdown of a demoted or removed node) while its commit index is %d", n.id, r.configs.Committed.Index, canonConfig(r.configs.Committed), r.commitIndex))
 		l.violate("info", "config-marked-committed-beyond-commit-index", fmt.Sprintf("node %d treats config %d as committed but its commit index is %d", n.id, r.configs.Committed.Index, r.commitIndex))
 	}
@@ -951,6 +954,16 @@ func (l *ledger) checkInfo(n *simNode) {
 			l.violate("info", "latest-config-not-newest-entry", fmt.Sprintf("node %d: latest config is %d {%s} but newest config entry in its log is %d {%s}", n.id, r.configs.Latest.Index, canonConfig(r.configs.Latest), newest, newestCfg))
 		}
 	}
+}
+
+// knownCommitted: entry i is committed according to the ledger and node n holds that very entry.
+func (l *ledger) knownCommitted(n *simNode, i uint64) bool {
+	old, ok := l.committed[i]
+	if !ok {
+		return false
+	}
+	rec, _, ok := l.recAt(n, i)
+	return ok && rec == old
 }
 
 // newestConfigAtOrBelow returns the index of the newest committed
